@@ -2,6 +2,7 @@ import Driver.DomH
 import CrabModel.Dom.ConstantDomain
 import CrabModel.Dom.SignDomain
 import CrabModel.Dom.CongruenceDomain
+import CrabModel.Dom.RicDomain
 
 /-!
   Handler for component `xdom`: exact correspondence between `constant_domain<z_number>`,
@@ -25,8 +26,8 @@ def NV : Nat := 8
 def NPOOL : Nat := 4
 def WCAP : Nat := 40
 
-/-- what the handler needs of a domain model -/
-structure Ops (V : Type) where
+/-- description of a domain whose environment is `separate_domain<variable_t, V>` -/
+structure SOps (V : Type) where
   name : String
   L : Lattice V
   showVal : V → String
@@ -55,7 +56,7 @@ structure Ops (V : Type) where
   rename : Env V → List Nat → List Nat → Option (Env V) := XDom.Env.rename L
   expand : Env V → Nat → Nat → Env V := XDom.Env.expand L
 
-def cstOps : Ops Crab.Cst :=
+def cstSOps : SOps Crab.Cst :=
   { name := "cst", L := CDom.cstLattice,
     showVal := fun c => toString c,
     parseVal := fun s => match s with
@@ -72,7 +73,7 @@ def cstOps : Ops Crab.Cst :=
     entails := CDom.Env.entails, atItv := CDom.Env.atItv, toCsts := CDom.Env.toCsts,
     widen := XDom.Env.widen CDom.cstLattice, narrow := XDom.Env.narrow CDom.cstLattice }
 
-def sgnOps : Ops Sign :=
+def sgnSOps : SOps Sign :=
   { name := "sgn", L := SDom.signLattice,
     showVal := Sign.name,
     parseVal := fun s => match s with
@@ -89,7 +90,7 @@ def sgnOps : Ops Sign :=
     -- `operator||`, `widening_thresholds` are the join and `operator&&` the meet
     widen := XDom.Env.join SDom.signLattice, narrow := XDom.Env.meet SDom.signLattice }
 
-def congOps : Ops Cong :=
+def congSOps : SOps Cong :=
   { name := "cong", L := GDom.congLattice,
     showVal := fun c => toString c,
     parseVal := fun s => match s with
@@ -112,6 +113,133 @@ def congOps : Ops Cong :=
     widen := XDom.Env.widen GDom.congLattice, narrow := XDom.Env.narrow GDom.congLattice,
     forget := GDom.Env.forget, forgetAll := GDom.Env.forgetAll, project := GDom.Env.project,
     rename := GDom.Env.rename, expand := GDom.Env.expand }
+
+/-- what the handler needs of a domain model with values of type `E` -/
+structure Ops (E : Type) where
+  name : String
+  top : E
+  bot : E
+  isBottom : E → Bool
+  isTop : E → Bool
+  /-- the observable bindings of a non-bottom value, as the harness prints them -/
+  bindings : E → List (Nat × String)
+  /-- first fact of the value the state violates -/
+  envViolates : E → CState → Option String
+  /-- membership in a printed value (`none`: unparsable) -/
+  valContains : Sexp → Int → Option Bool
+  /-- a few members of a printed value (for the concrete meaning of `set`) -/
+  valSamples : Array Int → Sexp → Option (List Int)
+  setVal : E → Nat → Sexp → Option E
+  /-- the variable is unconstrained (for the concrete meaning of `rename`) -/
+  isFresh : E → Nat → Bool
+  assign : E → Nat → Expr → E
+  weakAssign : E → Nat → Expr → E
+  applyVar : E → ArithOp → Nat → Nat → Nat → E
+  applyCst : E → ArithOp → Nat → Nat → Int → E
+  applyBitVar : E → BitOp → Nat → Nat → Nat → E
+  applyBitCst : E → BitOp → Nat → Nat → Int → E
+  add : E → Sys → E
+  select : E → Nat → Lin.Cst → Expr → Expr → E
+  intCast : E → Bool → Nat → Nat → Nat → E
+  entails : E → Lin.Cst → Bool
+  atItv : E → Nat → Itv
+  toCsts : E → Sys
+  leq : E → E → Bool
+  join : E → E → E
+  meet : E → E → E
+  joinEq : E → E → E
+  meetEq : E → E → E
+  widen : E → E → E
+  widenTh : List Int → E → E → E
+  narrow : E → E → E
+  forget : E → Nat → E
+  forgetAll : E → List Nat → E
+  project : E → List Nat → E
+  rename : E → List Nat → List Nat → Option E
+  expand : E → Nat → Nat → E
+
+/-- a `separate_domain`-based domain as an `Ops` record -/
+def ofSOps {V : Type} (O : SOps V) : Ops (Env V) :=
+  let L := O.L
+  let bnd := fun (e : Env V) => (XDom.Env.bindings e).map (fun p => (p.1, O.showVal p.2))
+  { name := O.name, top := XDom.Env.top, bot := XDom.Env.bot,
+    isBottom := fun e => e.isBot, isTop := fun e => XDom.Env.isTop e,
+    bindings := bnd,
+    envViolates := fun e σ =>
+      if e.isBot then some "is_bottom" else
+      ((XDom.Env.bindings e).find? (fun (v, c) => !O.contains c (σ.getD v 0))).map
+        (fun (v, c) => s!"v{v} -> {O.showVal c}"),
+    valContains := fun s k => (O.parseVal s).map (fun c => O.contains c k),
+    valSamples := fun cands s => (O.parseVal s).map (O.samples cands),
+    setVal := fun e x s => (O.parseVal s).map (fun c => XDom.Env.set L e x c),
+    isFresh := fun e y => e.isBot || (e.tree.lookup y).isNone,
+    assign := O.assign, weakAssign := O.weakAssign, applyVar := O.applyVar, applyCst := O.applyCst,
+    applyBitVar := O.applyBitVar, applyBitCst := O.applyBitCst, add := O.add, select := O.select,
+    intCast := O.intCast, entails := O.entails, atItv := O.atItv, toCsts := O.toCsts,
+    leq := XDom.Env.leq L, join := XDom.Env.join L, meet := XDom.Env.meet L,
+    joinEq := XDom.Env.join L, meetEq := XDom.Env.meet L,
+    widen := O.widen, widenTh := fun _ => O.widen, narrow := O.narrow,
+    forget := O.forget, forgetAll := O.forgetAll, project := O.project, rename := O.rename,
+    expand := O.expand }
+
+def cstOps := ofSOps cstSOps
+def sgnOps := ofSOps sgnSOps
+def congOps := ofSOps congSOps
+
+/-! ### the "ric" domain (`numerical_congruence_domain<interval_domain>`) -/
+
+def parseCongVal : Sexp → Option Cong
+  | .atom "top" => some Cong.top
+  | .atom "bot" => some Cong.bot
+  | .list [.atom "cg", a, b] => do
+    let a ← a.int?; let b ← b.int?
+    -- the harness builds `aZ+b` as `congruence(b) | congruence(b + a)`
+    pure (if a = 0 then Cong.ofInt b else Cong.join (Cong.ofInt b) (Cong.ofInt (b + a)))
+  | _ => none
+
+def parseIC : Sexp → Option (Itv × Cong)
+  | .list [.atom "ic", i, c] => do pure ((← parseItv i), (← parseCongVal c))
+  | _ => none
+
+def showCongVal (c : Cong) : String := if !c.isBot && c.isTop then "top" else toString c
+
+/-- the variables bound in one of the two components, with both values -/
+def ricBindings (e : RDom.Env) : List (Nat × Itv × Cong) :=
+  if e.isBottom then [] else
+  let cs := XDom.Env.bindings e.s
+  let ks := (e.f.m.map (·.1) ++ cs.map (·.1)).eraseDups
+  let ks := ks.foldr (fun k acc => let (a, b) := acc.span (fun t => t < k); a ++ k :: b) []
+  ks.map (fun k => (k, ((e.f.m.find? (fun p => p.1 == k)).map (·.2)).getD Itv.top,
+                       ((cs.find? (fun p => p.1 == k)).map (·.2)).getD Cong.top))
+
+def ricOps : Ops RDom.Env :=
+  { name := "ric", top := RDom.Env.top, bot := RDom.Env.bot,
+    isBottom := RDom.Env.isBottom, isTop := RDom.Env.isTop,
+    bindings := fun e => (ricBindings e).map (fun (k, i, c) => (k, s!"(ic {showItv i} {showCongVal c})")),
+    envViolates := fun e σ =>
+      if e.isBottom then some "is_bottom" else
+      ((ricBindings e).find? (fun (k, i, c) => !(i.contains (σ.getD k 0) && c.contains (σ.getD k 0)))).map
+        (fun (k, i, c) => s!"v{k} -> ({showItv i}, {showCongVal c})"),
+    valContains := fun s k => (parseIC s).map (fun (i, c) => i.contains k && c.contains k),
+    valSamples := fun cands s => (parseIC s).map (fun (i, c) =>
+      let v := RDom.icReduce i c
+      if v.isBottom then [] else
+      (((itvSamples v.i) ++ cands.toList ++ (List.range 5).map (fun (j : Nat) => v.c.b + v.c.a * (Int.ofNat j - 2))).filter
+        (fun k => v.i.contains k && v.c.contains k)).eraseDups.take 3),
+    setVal := fun e x s => (parseIC s).map (fun (i, c) => RDom.Env.set e x (RDom.icReduce i c)),
+    isFresh := fun e y => e.isBottom || ((IDom.Map.find e.f.m y).isNone && (e.s.tree.lookup y).isNone),
+    assign := RDom.Env.assign, weakAssign := RDom.Env.weakAssign,
+    applyVar := RDom.Env.applyVar, applyCst := RDom.Env.applyCst,
+    applyBitVar := RDom.Env.applyBitVar, applyBitCst := RDom.Env.applyBitCst,
+    add := RDom.Env.add, select := RDom.Env.select, intCast := RDom.Env.intCast,
+    entails := RDom.Env.entails, atItv := RDom.Env.atItv, toCsts := RDom.Env.toCsts,
+    leq := RDom.Env.leq, join := RDom.Env.join, meet := RDom.Env.meet,
+    joinEq := RDom.Env.joinEq, meetEq := RDom.Env.meetEq,
+    widen := RDom.Env.widen,
+    widenTh := fun ks => RDom.Env.widenTh (ks.foldl (fun ts k => IDom.Thresholds.add ts 4294967295 k) IDom.Thresholds.init),
+    narrow := RDom.Env.narrow,
+    forget := RDom.Env.forget, forgetAll := RDom.Env.forgetAll, project := RDom.Env.project,
+    rename := RDom.Env.rename, expand := RDom.Env.expand }
 
 /-- the expression the harness builds: `e = e + linear_expression(k, v)` for every term
     (a term with a zero coefficient is never stored) -/
@@ -147,30 +275,25 @@ def parseBit : String → Option BitOp
 def vars? (xs : List Sexp) : Option (List Nat) := xs.mapM varIdx
 
 section generic
-variable {V : Type} (O : Ops V)
-
-/-- the bindings of a model value as printed by the harness -/
-def modelBindings (e : Env V) : List (Nat × String) :=
-  (XDom.Env.bindings e).map (fun p => (p.1, O.showVal p.2))
+variable {E : Type} (O : Ops E)
 
 def showBindings (bot : Bool) (m : List (Nat × String)) : String :=
   if bot then "_|_" else "{" ++ "; ".intercalate (m.map (fun (v, s) => s!"v{v} -> {s}")) ++ "}"
 
-def showEnv (e : Env V) : String := showBindings e.isBot (modelBindings O e)
+def showEnv (e : E) : String := showBindings (O.isBottom e) (O.bindings e)
 
 /-- result of one operation in the model: `none` = CRAB_ERROR expected -/
-structure MStep (V : Type) where
+structure MStep (E : Type) where
   d : Nat
-  env : Option (Env V)
+  env : Option E
   q : String := "-"
 
 /-- the model run of one operation -/
-def modelStep (pool : Array (Env V)) (o : Sexp) : Option (MStep V) :=
-  let P := fun (s : Sexp) => pool.getD (s.nat?.getD 0) XDom.Env.top
-  let L := O.L
+def modelStep (pool : Array E) (o : Sexp) : Option (MStep E) :=
+  let P := fun (s : Sexp) => pool.getD (s.nat?.getD 0) O.top
   match o with
-  | .list [.atom "top", d] => do pure ⟨← d.nat?, some XDom.Env.top, "-"⟩
-  | .list [.atom "bot", d] => do pure ⟨← d.nat?, some XDom.Env.bot, "-"⟩
+  | .list [.atom "top", d] => do pure ⟨← d.nat?, some O.top, "-"⟩
+  | .list [.atom "bot", d] => do pure ⟨← d.nat?, some O.bot, "-"⟩
   | .list [.atom "copy", d, s] => do pure ⟨← d.nat?, some (P s), "-"⟩
   | .list [.atom "assign", d, x, e] => do
     pure ⟨← d.nat?, some (O.assign (P d) (← varIdx x) (mkExpr (← parseLin e))), "-"⟩
@@ -198,25 +321,25 @@ def modelStep (pool : Array (Env V)) (o : Sexp) : Option (MStep V) :=
     pure ⟨← d.nat?, O.rename (P d) (← vars? f) (← vars? t), "-"⟩
   | .list [.atom "expand", d, x, y] => do
     pure ⟨← d.nat?, some (O.expand (P d) (← varIdx x) (← varIdx y)), "-"⟩
-  | .list [.atom "join", d, a, b] => do pure ⟨← d.nat?, some (XDom.Env.join L (P a) (P b)), "-"⟩
-  | .list [.atom "meet", d, a, b] => do pure ⟨← d.nat?, some (XDom.Env.meet L (P a) (P b)), "-"⟩
+  | .list [.atom "join", d, a, b] => do pure ⟨← d.nat?, some (O.join (P a) (P b)), "-"⟩
+  | .list [.atom "meet", d, a, b] => do pure ⟨← d.nat?, some (O.meet (P a) (P b)), "-"⟩
   | .list [.atom "widen", d, a, b] => do pure ⟨← d.nat?, some (O.widen (P a) (P b)), "-"⟩
   | .list [.atom "narrow", d, a, b] => do pure ⟨← d.nat?, some (O.narrow (P a) (P b)), "-"⟩
-  | .list [.atom "joineq", d, a] => do pure ⟨← d.nat?, some (XDom.Env.join L (P d) (P a)), "-"⟩
-  | .list [.atom "meeteq", d, a] => do pure ⟨← d.nat?, some (XDom.Env.meet L (P d) (P a)), "-"⟩
-  | .list [.atom "widenth", d, a, b, .list (.atom "ts" :: _)] => do
-    pure ⟨← d.nat?, some (O.widen (P a) (P b)), "-"⟩
+  | .list [.atom "joineq", d, a] => do pure ⟨← d.nat?, some (O.joinEq (P d) (P a)), "-"⟩
+  | .list [.atom "meeteq", d, a] => do pure ⟨← d.nat?, some (O.meetEq (P d) (P a)), "-"⟩
+  | .list [.atom "widenth", d, a, b, .list (.atom "ts" :: ks)] => do
+    pure ⟨← d.nat?, some (O.widenTh (← ks.mapM Sexp.int?) (P a) (P b)), "-"⟩
   | .list [.atom "select", d, x, c, e1, e2] => do
     pure ⟨← d.nat?, some (O.select (P d) (← varIdx x) (mkCst (← parseCst c)) (mkExpr (← parseLin e1)) (mkExpr (← parseLin e2))), "-"⟩
   | .list [.atom "set", d, x, v] => do
-    pure ⟨← d.nat?, some (XDom.Env.set L (P d) (← varIdx x) (← O.parseVal v)), "-"⟩
+    pure ⟨← d.nat?, some (← O.setVal (P d) (← varIdx x) v), "-"⟩
   | .list [.atom "cast", d, .atom c, x, y] => do
     pure ⟨← d.nat?, some (O.intCast (P d) (c == "zext") 32 (← varIdx x) (← varIdx y)), "-"⟩
   | .list [.atom "entails", d, c] => do
     let b := O.entails (P d) (mkCst (← parseCst c))
     pure ⟨← d.nat?, some (P d), if b then "1" else "0"⟩
   | .list [.atom "leq", d, a] => do
-    pure ⟨← d.nat?, some (P d), if XDom.Env.leq L (P d) (P a) then "1" else "0"⟩
+    pure ⟨← d.nat?, some (P d), if O.leq (P d) (P a) then "1" else "0"⟩
   | .list [.atom "at", d, x] => do
     pure ⟨← d.nat?, some (P d), showItv (O.atItv (P d) (← varIdx x))⟩
   | _ => none
@@ -271,25 +394,25 @@ def arithConc : String → String
   | "sdiv" => "div"
   | s => s
 
-structure HState (V : Type) where
+structure HState (E : Type) where
   g : Gen
-  pool : Array (Env V)
+  pool : Array E
   w : Array (List CState)
 
 section generic
-variable {V : Type} (O : Ops V)
+variable {E : Type} (O : Ops E)
 
 /-- is the state described by the printed bindings? (first violated fact) -/
-def violates (bot : Bool) (m : List (Nat × V)) (σ : CState) : Option String :=
+def violates (bot : Bool) (m : List (Nat × Sexp)) (σ : CState) : Option String :=
   if bot then some "is_bottom" else
-  (m.find? (fun (v, c) => !O.contains c (σ.getD v 0))).map (fun (v, c) => s!"v{v} -> {O.showVal c}")
+  (m.find? (fun (v, c) => (O.valContains c (σ.getD v 0)) != some true)).map (fun (v, c) => s!"v{v} -> {c}")
 
-def violatesEnv (e : Env V) (σ : CState) : Option String := violates O e.isBot (XDom.Env.bindings e) σ
+def violatesEnv (e : E) (σ : CState) : Option String := O.envViolates e σ
 
 /-- concrete run of one operation on the witnesses of the pool -/
-def concStep (cands : Array Int) (st : HState V) (o : Sexp) : Option (Gen × List CState) :=
+def concStep (cands : Array Int) (st : HState E) (o : Sexp) : Option (Gen × List CState) :=
   let W := fun (s : Sexp) => st.w.getD (s.nat?.getD 0) []
-  let E := fun (s : Sexp) => st.pool.getD (s.nat?.getD 0) XDom.Env.top
+  let EV := fun (s : Sexp) => st.pool.getD (s.nat?.getD 0) O.top
   match o with
   | .list [.atom "top", _] => some (freshStates cands st.g WCAP)
   | .list [.atom "bot", _] => some (st.g, [])
@@ -323,10 +446,10 @@ def concStep (cands : Array Int) (st : HState V) (o : Sexp) : Option (Gen × Lis
     else none   -- `select` (also six items) is handled by `concSelect`
   | .list [.atom "rename", d, .list f, .list t] => do
     let f ← vars? f; let t ← vars? t
-    let e := E d
+    let e := EV d
     -- meaningful only for distinct sources and distinct, fresh (unconstrained, not a source) targets
     let okShape := f.length == t.length && f.eraseDups.length == f.length && t.eraseDups.length == t.length
-      && t.all (fun y => !f.contains y && (e.isBot || (e.tree.lookup y).isNone))
+      && t.all (fun y => !f.contains y && O.isFresh e y)
     if okShape then
       let ws := (W d).map (fun σ => (f.zip t).foldl (fun τ (x, y) => τ.setIfInBounds y (σ.getD x 0)) σ)
       pure (f.foldl (fun (g, ws) x => havoc cands g x ws) (st.g, ws))
@@ -338,8 +461,8 @@ def concStep (cands : Array Int) (st : HState V) (o : Sexp) : Option (Gen × Lis
     if k == "join" || k == "widen" then some (st.g, capW (interleave (W a) (W b)))
     else if k == "meet" || k == "narrow" then some (st.g, (W a).filter (fun σ => (W b).contains σ))
     else if k == "set" then do
-      let x ← varIdx a; let v ← O.parseVal b
-      let vals := O.samples cands v
+      let x ← varIdx a
+      let vals ← O.valSamples cands b
       pure (st.g, capW ((W d).flatMap (fun σ => vals.map (fun k => σ.setIfInBounds x k))))
     else none
   | .list [.atom "joineq", d, a] => some (st.g, capW (interleave (W d) (W a)))
@@ -355,7 +478,7 @@ def concStep (cands : Array Int) (st : HState V) (o : Sexp) : Option (Gen × Lis
   | _ => none
 
 /-- `select` has six items and is handled apart -/
-def concSelect (st : HState V) (o : Sexp) : Option (Gen × List CState) :=
+def concSelect (st : HState E) (o : Sexp) : Option (Gen × List CState) :=
   match o with
   | .list [.atom "select", d, x, c, e1, e2] => do
     let x ← varIdx x; let c ← parseCst c; let e1 ← parseLin e1; let e2 ← parseLin e2
@@ -365,14 +488,14 @@ def concSelect (st : HState V) (o : Sexp) : Option (Gen × List CState) :=
 end generic
 
 /-- one history against the model `O` -/
-def handleHist {V : Type} (O : Ops V) (ops res : List Sexp) : Verdict :=
+def handleHist {E : Type} (O : Ops E) (ops res : List Sexp) : Verdict :=
   let req := Sexp.list ops
   let cands := candidates req
   let seed := (intsOf req).foldl (fun a k => (a * 31 + k.natAbs) % 2 ^ 61) (ops.length + 7)
   let (g0, init) := freshStates cands ⟨seed⟩ WCAP
-  let st0 : HState V := { g := g0, pool := Array.replicate NPOOL XDom.Env.top, w := Array.replicate NPOOL init }
+  let st0 : HState E := { g := g0, pool := Array.replicate NPOOL O.top, w := Array.replicate NPOOL init }
   let nops := ops.length
-  let step (acc : Except Verdict (HState V × Bool)) (i : Nat) : Except Verdict (HState V × Bool) := do
+  let step (acc : Except Verdict (HState E × Bool)) (i : Nat) : Except Verdict (HState E × Bool) := do
     let (st, stopped) ← acc
     if stopped then return (st, true)
     let o := ops.getD i (.atom "?")
@@ -385,9 +508,9 @@ def handleHist {V : Type} (O : Ops V) (ops res : List Sexp) : Verdict :=
     | _, none => throw (.drift s!"{ctx}: model expects CRAB_ERROR, implementation printed {r}")
     | _, some e =>
       let some p := parsePrinted r | throw (.bad s!"{ctx}: unparsable result {r}")
-      let some pm := p.m.mapM (fun (v, s) => (O.parseVal s).map (fun c => (v, c)))
-        | throw (.bad s!"{ctx}: unparsable value in {r}")
-      let pre := st.pool.getD ms.d XDom.Env.top
+      if !(p.m.all (fun (_, s) => (O.valContains s 0).isSome)) then throw (.bad s!"{ctx}: unparsable value in {r}")
+      let pm := p.m
+      let pre := st.pool.getD ms.d O.top
       let printedStr := showBindings p.bot (p.m.map (fun (v, s) => (v, toString s)))
       -- concrete side first: a drift that is also a soundness violation is reported as such
       let some (g, wd) := (match concSelect st o with | some x => some x | none => concStep O cands st o)
@@ -415,7 +538,7 @@ def handleHist {V : Type} (O : Ops V) (ops res : List Sexp) : Verdict :=
           | none => pure ()
       | .list [.atom "leq", _, a] =>
         if toString p.q == "1" then
-          let ea := st.pool.getD (a.nat?.getD 0) XDom.Env.top
+          let ea := st.pool.getD (a.nat?.getD 0) O.top
           match wd.findSome? (fun σ => (violatesEnv O ea σ).map (fun f => (σ, f))) with
           | some (σ, f) => throw (.unsound s!"[C04] {ctx}: {showEnv O pre} <= {showEnv O ea} answered yes but witness {showState σ} violates {f}")
           | none => pure ()
@@ -428,11 +551,11 @@ def handleHist {V : Type} (O : Ops V) (ops res : List Sexp) : Verdict :=
         | _, _ => throw (.bad s!"{ctx}: unparsable interval {p.q}")
       | _ => pure ()
       -- exact comparison with the model
-      let mm := modelBindings O e
-      if p.bot != e.isBot then throw (.drift s!"{ctx}: before {showEnv O pre}; is_bottom={p.bot}, model {showEnv O e}")
+      let mm := O.bindings e
+      if p.bot != O.isBottom e then throw (.drift s!"{ctx}: before {showEnv O pre}; is_bottom={p.bot}, model {showEnv O e}")
       if p.m.map (fun (v, s) => (v, toString s)) != mm then
         throw (.drift s!"{ctx}: before {showEnv O pre}; printed {printedStr}, model {showEnv O e}")
-      if p.top != e.isTop then throw (.drift s!"{ctx}: is_top={p.top}, model {e.isTop} on {showEnv O e}")
+      if p.top != O.isTop e then throw (.drift s!"{ctx}: is_top={p.top}, model {O.isTop e} on {showEnv O e}")
       let mcs := sortStrings ((O.toCsts e).map showCst)
       if sortStrings (p.cs.map toString) != mcs then
         throw (.drift s!"{ctx}: to_linear_constraint_system printed {p.cs}, model {mcs}")
@@ -447,6 +570,7 @@ def handleXDom (op : String) (args res : List Sexp) : Verdict :=
   | "hist", [.atom "cst", .list (.atom "ops" :: ops)] => handleHist cstOps ops res
   | "hist", [.atom "sgn", .list (.atom "ops" :: ops)] => handleHist sgnOps ops res
   | "hist", [.atom "cong", .list (.atom "ops" :: ops)] => handleHist congOps ops res
+  | "hist", [.atom "ric", .list (.atom "ops" :: ops)] => handleHist ricOps ops res
   | "hist", [.atom d, _] => .skip s!"xdom.hist: no model for domain {d}"
   | _, _ => .bad s!"xdom.{op}"
 
